@@ -10,6 +10,7 @@
 -/
 import C4E.Vesting
 import C4E.Distr1
+import C4E.Distributor
 import C4E.Lemmas.AListLemmas
 import C4E.Lemmas.VestBacked
 namespace C4E.Props.C01
@@ -301,6 +302,192 @@ theorem vesting_never_changes_supply (msgs : List Msg) (d : String) : ∀ s : Ve
       | ok r => exact handle_total s m r hh d
       | err => rfl
       | panic => rfl
+
+/-! ### the distributor never creates coins: bank total + burned is constant over a block -/
+
+section DistrSupply
+open C4E.Distr
+
+/-- all coins of denomination `d` held by any account of the distributor's bank slice -/
+def bankTotal (d : String) (b : Bank) : Int := sumInts (b.bal.map (fun kv => amountOf kv.2 d))
+
+/-- what exists plus what was burned so far -/
+def ledger (d : String) (b : Bank) : Int := bankTotal d b + amountOf b.burned d
+
+theorem bank_send_ledger (b b' : Bank) (src dst : String) (c : Coins) (d : String) (h : b.send src dst c = some b') :
+    ledger d b' = ledger d b := by
+  unfold Bank.send at h
+  simp only [] at h
+  split at h
+  · cases h
+  · cases h
+    unfold ledger bankTotal Bank.balance
+    simp only []
+    rw [total_set, total_set, amountOf_add, amountOf_add, amountOf_neg]
+    omega
+
+theorem bank_burn_ledger (b b' : Bank) (src : String) (c : Coins) (d : String) (h : b.burn src c = some b') :
+    ledger d b' = ledger d b ∧ bankTotal d b' = bankTotal d b - amountOf c d := by
+  unfold Bank.burn at h
+  simp only [] at h
+  split at h
+  · cases h
+  · cases h
+    unfold ledger bankTotal Bank.balance
+    simp only []
+    rw [total_set, amountOf_add, amountOf_add, amountOf_neg]
+    constructor <;> omega
+
+theorem sweep_ledger (e : Env) (w : World) (addr : String) (d : String) :
+    ledger d (sweep e w addr).2.bank = ledger d w.bank := by
+  unfold sweep
+  split
+  · split
+    · rfl
+    · split
+      · rfl
+      · rename_i b hb
+        exact bank_send_ledger _ b _ _ _ d hb
+  · rfl
+
+theorem prepareNotMain_ledger (e : Env) (w w' : World) (src : Account) (c : DecCoins) (d : String)
+    (h : prepareNotMain e w src = .ok (c, w')) : ledger d w'.bank = ledger d w.bank := by
+  unfold prepareNotMain at h
+  simp only [] at h
+  split at h
+  · rename_i cc ww hsw
+    have key : ledger d ww.bank = ledger d w.bank := by
+      split at hsw
+      · split at hsw
+        · cases hsw
+        · rename_i addr _
+          have hsw' := Outcome.ok.inj hsw
+          have : ww = (sweep e w addr).2 := by rw [hsw']
+          rw [this]; exact sweep_ledger e w addr d
+      · split at hsw
+        · have hsw' := Outcome.ok.inj hsw
+          have : ww = (sweep e w src.id).2 := by rw [hsw']
+          rw [this]; exact sweep_ledger e w src.id d
+        · cases hsw; rfl
+    split at h
+    · cases h; exact key
+    · cases h
+    · cases h
+  · cases h
+  · cases h
+
+theorem prepOthersPart_ledger (e : Env) (d : String) : ∀ (l : List Account) (w w' : World) (all all' : DecCoins),
+    prepOthersPart e w l all = .ok (all', w') → ledger d w'.bank = ledger d w.bank
+  | [], w, w', all, all', h => by simp only [prepOthersPart, Outcome.ok.injEq, Prod.mk.injEq] at h; rw [← h.2]
+  | s :: rest, w, w', all, all', h => by
+    unfold prepOthersPart at h
+    split at h
+    · split at h
+      · rename_i c w1 hp
+        rw [prepOthersPart_ledger e d rest w1 w' _ all' h, prepareNotMain_ledger e w w1 s c d hp]
+      · cases h
+      · cases h
+    · exact prepOthersPart_ledger e d rest w w' all all' h
+
+theorem prepareCoins_ledger (e : Env) (w w' : World) (l : List Account) (c : DecCoins) (d : String)
+    (h : prepareCoins e w l = .ok (c, w')) : ledger d w'.bank = ledger d w.bank := by
+  unfold prepareCoins at h
+  split at h
+  · exact prepOthersPart_ledger e d l w w' _ c h
+  · cases h
+  · cases h
+
+theorem subsLoop_ledger (e : Env) (d : String) : ∀ (subs : List SubD) (w w' : World) (evs evs' : List Distr.Event),
+    subsLoop e subs w evs = .ok (w', evs') → ledger d w'.bank = ledger d w.bank
+  | [], w, w', evs, evs', h => by simp only [subsLoop, Outcome.ok.injEq, Prod.mk.injEq] at h; rw [← h.1]
+  | s :: rest, w, w', evs, evs', h => by
+    unfold subsLoop at h
+    split at h
+    · rename_i coins w1 hp
+      have h1 := prepareCoins_ledger e w w1 _ coins d hp
+      split at h
+      · split at h
+        · have := subsLoop_ledger e d rest _ w' _ evs' h
+          rw [this]; exact h1
+        · cases h
+        · cases h
+      · rw [subsLoop_ledger e d rest w1 w' evs evs' h]; exact h1
+    · cases h
+    · cases h
+
+theorem payoutOne_ledger (e : Env) (w w' : World) (s s' : DState) (d : String)
+    (h : payoutOne e w s = .ok (s', w')) : ledger d w'.bank = ledger d w.bank := by
+  unfold payoutOne at h
+  split at h
+  · cases h
+  · split at h
+    · simp only [] at h
+      split at h
+      · split at h
+        · cases h; rfl
+        · split at h
+          · cases h
+          · split at h
+            · cases h; rfl
+            · rename_i b hb
+              cases h
+              exact (bank_burn_ledger _ b _ _ d hb).1
+      · split at h
+        · split at h
+          · cases h; rfl
+          · split at h
+            · cases h
+            · split at h
+              · cases h; rfl
+              · rename_i b hb
+                cases h
+                exact bank_send_ledger _ b _ _ _ d hb
+        · split at h
+          · cases h; rfl
+          · split at h
+            · cases h; rfl
+            · split at h
+              · cases h; rfl
+              · split at h
+                · cases h; rfl
+                · rename_i b hb
+                  cases h
+                  exact bank_send_ledger _ b _ _ _ d hb
+    · cases h; rfl
+
+theorem payoutLoop_ledger (e : Env) (d : String) : ∀ (l : List DState) (w w' : World) (st st' : List DState),
+    payoutLoop e l w st = .ok (w', st') → ledger d w'.bank = ledger d w.bank
+  | [], w, w', st, st', h => by simp only [payoutLoop, Outcome.ok.injEq, Prod.mk.injEq] at h; rw [← h.1]
+  | s :: rest, w, w', st, st', h => by
+    unfold payoutLoop at h
+    split at h
+    · rename_i s1 w1 hp
+      rw [payoutLoop_ledger e d rest w1 w' _ st' h, payoutOne_ledger e w w1 s s1 d hp]
+    · cases h
+    · cases h
+
+/-- **the distributor never creates coins**: over a whole `BeginBlocker` of the code-tied model —
+    any configuration, any pattern of failing bank calls — what all accounts hold plus what has been
+    burned is unchanged in every denomination; the only supply change is the recorded burn -/
+theorem distributor_block_ledger (e : Env) (subs : List SubD) (w0 : World) (faults : List Nat) (r : BlockRes)
+    (h : beginBlock e subs w0 faults = .ok r) (d : String) :
+    ledger d r.world.bank = ledger d w0.bank := by
+  unfold beginBlock at h
+  split at h
+  · rename_i w evs hs
+    have h1 := subsLoop_ledger e d subs _ w [] evs hs
+    split at h
+    · rename_i w2 stored hp
+      cases h
+      have h2 := payoutLoop_ledger e d w.states w w2 [] stored hp
+      show ledger d w2.bank = _
+      rw [h2, h1]
+    · cases h
+    · cases h
+  · cases h
+  · cases h
+
+end DistrSupply
 
 /-- the hypotheses are satisfiable (two distinct parties) -/
 theorem nonvacuous : ("sender" : String) ≠ "recipient" := by decide
